@@ -157,6 +157,10 @@ def body(E, n, m, num_pts, npt_so_far, preset, with_h=False, xr=False, nsample_m
     objfun = mk_objfun(E, m, log, xr=xr, raise_at=(0 if fault == 'raise' else (1 if fault == 'raise1' else None)))
     C, M, ghost, params = mk_controller(E, n, m, num_pts, npt_so_far, preset=preset, with_h=with_h, xr=xr, objfun=objfun,
                                          kopt_minimal=False)
+    if preset.startswith('growing'):
+        # a freshly drawn random direction is never exactly in the span of the existing directions (probability-zero event; with the
+        # arbitrary Q of the stubbed QR it would make the orthogonalised direction 0 and the new point 0/0)
+        E.assume_norms_positive(True)
     rec = {'evals': [], 'rng': [], 'cb': [], 'dyk': []}
     nsamples = install_stubs(E, C, M, params, n, m, log, xr, nsample_mode, rec)
     if proj:
@@ -422,7 +426,7 @@ STUBS = ["objfun: fresh residual vector per call", "nsamples callback: constant 
          "Model.lagrange_gradient: fresh values or LinAlgError, deterministic in the factorisation state",
          "trsbox_geometry: fresh point inside [lower, upper] (C13 contract)",
          "random_directions_within_bounds / random_orthog_directions_within_bounds: fresh directions inside [lower, upper] (C14 contract)",
-         "scipy.linalg.qr, scipy.stats.linregress: fresh values", "math.log: uninterpreted strictly monotone function",
+         "scipy.linalg.qr, scipy.stats.linregress: fresh values; in the growing presets vector norms taken by the code are assumed non-zero", "math.log: uninterpreted strictly monotone function",
          "products / quotients / squares / square roots of two symbolic values: uninterpreted functions with sign, zero and unit axioms (over-approximation); counterexamples are re-checked under exact nonlinear semantics and replayed concretely"]
 
 INV = ["1 <= nx <= nf <= maxfun; eval numbers of occupied and saved slots in [1, nx]; sample counts >= 1",
